@@ -66,25 +66,115 @@ def _p(rules, explanation, extra_assumptions=()):
     return {"rules": rules, "explanation": explanation, "assumptions": COMMON_ASSUMPTIONS + list(extra_assumptions)}
 
 
+NOT = " NOT decided (runtime remainder): "
+
 PROPS = {
-    "C01": _p(["L1a", "L2", "L8a", "S1", "S3", "S4", "D1a", "D2", "D3a", "D4", "L7", "P7", "N1"], "tmp"),
-    "C02": _p(["L1r", "L2", "L4", "L5", "L8r", "D1r", "D2", "D3r", "D4", "S3", "S7", "T1", "O1", "N1"], "tmp"),
-    "C03": _p(["L8c", "T1", "P5", "C2", "Q4", "Q2"], "tmp"),
-    "C04": _p(["L1w", "L2", "L7", "P5"], "tmp"),
-    "C05": _p(["P1", "P2", "P3", "P6", "P5", "P7", "N3", "N7"], "tmp"),
-    "C06": _p(["N1", "N2", "N3", "N4", "N5", "N7", "P1", "T1"], "tmp"),
-    "C07": _p(["S1", "S2", "S3", "T1", "D1", "D2", "D3", "D4"], "tmp"),
-    "C08": _p(["S5", "S7", "S3", "S4", "S6"], "tmp"),
-    "C09": _p(["C1", "C2", "S8", "S3", "L1c", "L2", "Q3"], "tmp"),
-    "C10": _p(["N6", "N1", "N2", "N4", "N7", "N8", "T1"], "tmp"),
-    "C11": _p(["S6", "S5", "S8"], "tmp"),
-    "C12": _p(["P4", "P5", "P6"], "tmp"),
-    "C13": _p(["T1", "T2", "T3", "T4"], "tmp"),
-    "C14": _p(["I1", "L1t", "L4", "L2", "S1", "S2"], "tmp"),
-    "C15": _p(["S4", "S9", "T1", "L1w", "I1", "P5"], "tmp"),
-    "C16": _p(["I2", "I3", "R1", "N2", "N7", "S6", "S8", "N5"], "tmp"),
-    "C17": _p(["Q1", "Q2", "Q3", "Q4", "T1"], "tmp"),
-    "C18": _p(["B1", "B2", "B3"], "tmp"),
-    "C19": _p(["F1", "F2", "F3", "F4", "F5", "F6"], "tmp"),
-    "C20": _p(["L1i", "L1ri", "L2", "L6", "T4"], "tmp"),
+    "C01": _p(["L1a", "L2", "L8a", "S1", "S3", "S4", "D1a", "D2", "D3a", "D4", "L7", "P7", "N1", "S5", "R1"],
+              "Structural necessary conditions of byte-exact AKAI export: evaluated construct layouts of partition/volume/file-entry/sample-header "
+              "(offset, width, sign, endianness, data-window terms offset = header_end + 2*play_start, size = 2*(play_end - play_start)) equal the reviewed "
+              "reference (L1a, L2); both sample type bytes reach the sample parser (L8a); chain walk shape (S1), address maps (S3), multi-sector split "
+              "accounting incl. the zero-size / exact-sector-end guard (S4), clip/advance of reads (S5); SAT decoder exits install their links and only at END "
+              "words (D1, D3) with the documented flag values (D2); segment/file streams built from get_path (D4); export walk hands every sample over once and "
+              "writes one truncated 'wb' file per `Exported` line with the header's rate (P7, L7); streams rewound before export (R1)." + NOT +
+              "byte equality of outputs; that the decoded SAT equals the intended allocation for every table; directory reserved-run handling beyond D1/D3. "
+              "Known finding G7 (head-not-lowest chains are truncated) is reported as KNOWN-FINDING.",
+              ["the reviewed layout reference (sa/reference/layouts.json) matches the AKAI S1000/S3000 format as documented (140-byte sample header, 150-byte keygroup)"]),
+    "C02": _p(["L1r", "L2", "L4", "L5", "L8r", "D1r", "D2", "D3r", "D4", "S3", "S7", "T1", "O1", "N1", "S4", "S5"],
+              "Structural necessary conditions of byte-exact Roland export: record addressing terms ENTRY_SIZE*index + AREA_OFFSET per kind/area with MAX_NUM bounds "
+              "(L4), contiguous area geometry (L5), struct sizes = the repository's constants (L2), full evaluated layout of the image struct against the reviewed "
+              "reference (L1r); loop mode -> window [2*start, 2*(END-start+1)) with END per mode and StreamReversed for exactly the two reverse modes, handler map total "
+              "over the 7 modes (L8r, S7); cluster_top slicing and fat_entry chain (D4); FAT decoder terminates, installs links only at END words, raises only for "
+              "malformed tables (T1, D1, D3, D2); per-performance collection loops and orphan detection over DISTINCT referenced performances (O1); routines at every "
+              "level (N1)." + NOT + "byte equality; np.isin orphan mask semantics; FAT version handling of directory links."),
+    "C03": _p(["L8c", "T1", "P5", "C2", "Q4", "Q2", "Q1"],
+              "Decides the CDDA window clauses as E-AFF terms: MSF polynomial 4500m+75s+f, 2352-byte sectors, per-track offset = 2352*first_index(cur) and "
+              "offset+size = 2352*first_index(next) (tiling identity: no gap, no overlap), last track to end_of_file, first INDEX used, walk advances with each emitted "
+              "track (L8c, T1-ITERATOR); all-audio cue -> CDDA (C2, Q4); whole-frame truncation with the stream's own frame size (P5); cue field extraction (Q1, Q2)." + NOT +
+              "tracks without INDEX lines; equality of bytes."),
+    "C04": _p(["L1w", "L2", "L7", "P5"],
+              "Decides the RIFF structure clauses: evaluated layouts of RiffStruct / chunk / fmt (16 bytes) / smpl (36 + 24*loops) / loop (24) incl. Prefixed(Int32ul) nesting, "
+              "little-endian chunk ids, Rebuild terms byte_rate = rate*channels*bits//8 and block_align = channels*bits//8, loop count = len(loops) (L1w, L2); chunk append order "
+              "fmt,[smpl],data; fmt values; destination encoding; output opened with builtin open(path,'wb') (L7); every data block trimmed to whole frames of that stream (P5)." + NOT +
+              "that construct's Prefixed computes sizes correctly; smpl field value ranges; samples whose export raises."),
+    "C05": _p(["P1", "P2", "P3", "P6", "P5", "P7", "N3", "N7"],
+              "Decides the pairing clauses: marks and index keyed by export name only, every iteration path emits exactly one sample or skips a consumed one, partner marked iff "
+              "combined (P1); by case analysis over the regex group (L|R) the first combine_stereo argument is always the L sample, partner name = stem+separator+other suffix, "
+              "merged name = stem (P2); left streams then right streams, channel count = number of streams (P3); frame-major interleave / de-interleave idioms and end-padding (P6); "
+              "end-of-data only on an empty trimmed block (P5); per-level hand-over exactly once (P7); names forwarded to the generalized sample (N3, N7)." + NOT +
+              "which name multisets collide after renaming; unequal-length pairs."),
+    "C06": _p(["N1", "N2", "N3", "N4", "N5", "N7", "P1", "T1"],
+              "Decides confinement and character clauses: every directory class runs the naming routines on the children it hands out (N1) and receives them from its parent (N2); "
+              "abstract string domain over the regex ASTs proves export names non-empty, alphabet within {word, space, - . #} (+ parentheses from counters), first character a word "
+              "character, no trailing blank, directories not ending in '.' (N4); paths are built from export names only, joined under the destination, single write site (N5); "
+              "each element gets exactly one name recomputed from the raw name (N7); pairing marks keyed by export names (P1); counter loop bounded (T1)." + NOT +
+              "UNIQUENESS of paths within a run (depends on the whole sibling multiset; unclaimed clause)."),
+    "C07": _p(["S1", "S2", "S3", "T1", "D1", "D2", "D3", "D4"],
+              "Decides chain-resolution clauses: get_path appends the cursor before advancing to table[cursor].next, leaves exactly at .end, range test `>= len(table)` dominates the "
+              "access, bounded counter advances on every back-edge path (S1, T1-COUNTER); out-of-range link stores raise InvalidFatDefinition (S2); concatenation addressing (S3); both "
+              "decoders terminate on every table by the VISITED-WALK variant (T1), install links on every exit that is not justified by a malformed-table atom (D1) and only at END words "
+              "/ directory-run ends (D3), with the documented constants (D2)." + NOT + "the exhaustive table x start enumeration; the AKAI reserved-run rule beyond D1/D3. Known finding G7."),
+    "C08": _p(["S5", "S7", "S3", "S4", "S6"],
+              "Obligations on the 2 base methods and 9 override methods implementing every view kind: read amount = min(end-position, size) (0 if negative), position advances by exactly "
+              "that amount, seek = clamp(base(whence)+offset, 0, end), no subclass overrides read/seek/tell/readall (S5); window and reversed translations incl. alignment errors and the "
+              "reshape/flip idiom (S7); address maps as affine terms on every path (S3); split accounting, first/middle/last piece indices, zero-size guard, length check (S4); re-sync "
+              "before every underlying read (S6)." + NOT + "equality with a reference model over operation histories; empty views; short reads of the underlying file."),
+    "C09": _p(["C1", "C2", "S8", "S3", "L1c", "L2", "Q3"],
+              "Decides: detection cascade order and the stream each probe/parser receives (C1); data-track existential and CDDA branch (C2); every probe restores the borrowed stream's "
+              "position on every normal exit (S8); MDF geometry 2352 = 16+2048+288, size = (n // 2352) * 2048 (S3); MDX window offset = sizeof(header), size = eof - offset; container "
+              "header layouts (L1c, L2); ASCII probe and fallbacks (Q3)." + NOT + "equality of ls/export across the five encodings."),
+    "C10": _p(["N6", "N1", "N2", "N4", "N7", "N8", "T1"],
+              "Decides: listing shows safe_name of every child and lookup compares the same attribute through the same normaliser (N6); safe names exist and are de-duplicated at every "
+              "level (N1, N2, N7) and are blank-stripped (N4); every lookup failure inside parse_path is converted to ErrorInvalidPath, ls prints it and returns; whole path stripped, "
+              "split on / and \\, trailing empty token dropped (N8); tokeniser loop terminates (T1)." + NOT +
+              "that normalisation after de-duplication cannot merge two names (case/blank variants); blank names; error-free rendering of every item."),
+    "C11": _p(["S6", "S5", "S8", "L1a", "L1r"],
+              "Decides: every site that reads an underlying stream (StreamWrapper.read, SectorStream._read_sector, StreamReversed via read) re-establishes that stream's cursor from its own "
+              "state on every path - tell/compare/_seek(position) or absolute seek to the sector address immediately before the read; raw readers are called only from those layers (S6); "
+              "no subclass bypasses read (S5); parse-time probes restore positions (S8); shared partition / data-area windows have the recorded offset/size terms (L1a, L1r)." + NOT +
+              "the schedule enumeration; reads performed inside construct on the raw handle."),
+    "C12": _p(["P4", "P5", "P6"],
+              "Decides: zip / parallel indexing only combines lists of one index domain (per stream vs per channel), interprocedurally for the swap flags (P4); byte-order predicates vs "
+              "system_byte_order and destination (P4); every stream reads n*frame_size bytes with one common n, blocks trimmed to whole frames of that stream, pass-through uses "
+              "buffer_sizes[0], stop conditions, channel-count check (P5); interleave / de-interleave idioms, end-padding, dtype table (P6)." + NOT + "numerical equality per frame; padding values."),
+    "C13": _p(["T1", "T2", "T3", "T4"],
+              "Decides the termination/boundedness clauses visible in code shape: every `while` loop of the package carries a termination variant checked on every back-edge path of a "
+              "hand-built CFG - COUNTER, BOUNDED-RAISE, LEN-CONSUME (with callee summaries), ITERATOR, VISITED-WALK, STREAM-PARSE (record consumption proven positive incl. the adapter's "
+              "size>=1 guard), READ-UNTIL-EMPTY, ANCESTOR (T1); no `for` grows its own iterable (T2); every cycle of the resolved call graph is in a confirmed table with its side condition "
+              "re-checked (T3); image-controlled counts/sizes are width-bounded or lazy (T4)." + NOT + "complexity constants; loops inside construct/numpy; peak memory.",
+              ["sector_length/buffer_length attributes are positive (constructor sites pass positive constants)", "the element parent relation is a tree"]),
+    "C14": _p(["I1", "L1t", "L4", "L2", "S1", "S2"],
+              "Decides: in the AKAI file-table loop the handler re-seeks to entry start + entry size and continues; in lazy file realisation the error path appends nothing and continues; "
+              "the four Roland sample references and tolerant lists skip a failing element; Roland records are addressed absolutely (Computed/Pointer/Lazy only) so element i cannot shift "
+              "element j (I1, L4); 24-byte file entries / record layouts (L1t, L2); out-of-range start sectors raise the exception the loop swallows (S1, S2)." + NOT +
+              "damage that still parses (a start sector pointing into another file's chain); equality of the other items' audio."),
+    "C15": _p(["S4", "S9", "T1", "L1w", "I1", "P5"],
+              "Decides: a short sector read is detected on every returning path of SectorStream._read (S4e) and ends the data stream instead of aborting (S9); partition scan leaves its "
+              "loop on the first unparsable header (T1-STREAM-PARSE exits); length prefixes wrap the streamed data (L1w); unreadable files are skipped without stopping the remaining ones "
+              "(I1); whole-frame blocks (P5)." + NOT + "prefix equality; which files are reported for which cut."),
+    "C16": _p(["I2", "I3", "R1", "N2", "N7", "S6", "S8", "N5"],
+              "Decides: accumulating / position-dependent realisers run once under a flag they always set (I2); no write-capable call outside the export path, inputs opened read-only "
+              "(I3, N5); data streams are rewound before every export (R1); both actions install both naming routines before traversing, so what an operation sees does not depend on which "
+              "ran first (N2); names recomputed from raw names (N7); no read depends on where an earlier operation left the shared cursor (S6, S8)." + NOT +
+              "equality across operation histories; effects of context mutation in wrap_child_realization."),
+    "C17": _p(["Q1", "Q2", "Q3", "Q4", "T1"],
+              "Decides: the four line regexes are case-insensitive, tolerate leading blanks, match their keyword and capture the documented groups (Q1); blank lines are judged on the fully "
+              "stripped text, the next-track test is exactly the TRACK regex, unknown lines inside a track are recorded and skipped, non-FILE lines before FILE are skipped, no FILE -> "
+              "BadCueSheet (Q2); strict ASCII probe with fallback to binary (Q3); mode comparisons via lower() (Q4); the four line-consuming loops terminate (T1-LEN-CONSUME)." + NOT +
+              "unknown lines between FILE and the first TRACK; equality of resulting images."),
+    "C18": _p(["B1", "B2", "B3"],
+              "These finite tables and affine pairs ARE the codecs: nine CHAR_MAP entries give two ranges of equal width plus five symbols, 41 pairwise distinct codes in both sets; both "
+              "converters offset within the same map entry and map each symbol to the same symbol, rejecting every other byte (B1); note tables compose to the identity on the 12 semitones, "
+              "divmod by 12, equal A0 offsets in both directions, text form and regex groups agree (B2); tuning lines are exact inverses over the rationals with only the value 0 "
+              "special-cased on both sides (B3)." + NOT + "IEEE rounding of the tuning line at every byte; string-level padding."),
+    "C19": _p(["F1", "F2", "F3", "F4", "F5", "F6"],
+              "On the token-rewritten .pyx sources: stored state depends on carried state (F1: FIR violates this - known finding G8), reset restores constructor state (F2), flush ends in "
+              "reset and feeds delay_offset zeros (F3), every narrowing cast to short is preceded by a two-sided int16 bound in the function or in every caller (F4), IIR windows are loaded "
+              "from and saved back to the history arrays after the sample loop (F5); presets in common.py only bind constants and inherit the streaming methods (F6)." + NOT +
+              "equality of outputs over splits; output length; numerical behaviour.",
+              ["the shipped .so files correspond to the .pyx sources (Cython is absent; they cannot be rebuilt here)"]),
+    "C20": _p(["L1i", "L1ri", "L2", "L6", "T4", "L8c"],
+              "Decides where each displayed value is read from and which key it lands in: evaluated layouts of AKAI sample header / loop table / program header / keygroup (symbolic in the "
+              "zone count) / velocity zone and Roland sample parameter record incl. mapping tables, enum tables and Computed/If/Seek expressions vs the reviewed reference (L1i, L1ri, L2); "
+              "dataclass <- struct field flow, positional constructor mapping, 0 -> 44100 default, active-loop selection over all 8 entries, itemize exclusions (L6); keygroup chain bounded "
+              "by a 1-byte count (T4); CDDA track facts (L8c)." + NOT + "rendering (80-column truncation, 300-line cap); float formatting."),
 }
